@@ -1955,4 +1955,1350 @@ theorem resolveQuals_own_wins {decls : List QDecl} {own inh r : List Qual}
         exact ⟨b, hb, by rw [a1]; exact ieq_refl _, a2, a3⟩
     exact inheritFold_inv inh q1 r h hpw1 hown1
 
+
+/-! ### several namespaces -/
+
+theorem run_snoc (s : State) (ops : List Op) (op : Op) :
+    (run s (ops ++ [op])).1 = (step (run s ops).1 op).1 := by
+  induction ops generalizing s with
+  | nil => simp [run]
+  | cons o os ih => simp only [List.cons_append, run]; exact ih _
+
+theorem reachable_step {s : State} (h : Reachable s) (op : Op) : Reachable (step s op).1 := by
+  obtain ⟨decls, ops, rfl⟩ := h
+  exact ⟨decls, ops ++ [op], (run_snoc _ ops op).symm⟩
+
+theorem reachable_empty : Reachable {} := ⟨[], [], rfl⟩
+
+/-- keys of the repository dictionary are pairwise different (up to case) -/
+def NsUnique (r : Repo) : Prop := List.Pairwise (fun a b => ieq a.1 b.1 = false) r.nss
+
+theorem findNs_some {r : Repo} {ns : Name} {s : State} (h : findNs r ns = some s) :
+    ∃ k, (k, s) ∈ r.nss ∧ ieq k (stripSlash ns) = true := by
+  unfold findNs at h
+  cases hf : r.nss.find? (fun e => ieq e.1 (stripSlash ns)) with
+  | none => simp [hf] at h
+  | some e =>
+    simp [hf] at h
+    have h1 := List.mem_of_find?_eq_some hf
+    have h2 := List.find?_some hf
+    refine ⟨e.1, ?_, by simpa using h2⟩
+    rw [← h]; exact h1
+
+theorem findNs_none {r : Repo} {ns : Name} (h : findNs r ns = none) :
+    ∀ e ∈ r.nss, ieq e.1 (stripSlash ns) = false := by
+  unfold findNs at h
+  cases hf : r.nss.find? (fun e => ieq e.1 (stripSlash ns)) with
+  | some e => simp [hf] at h
+  | none =>
+    intro e he
+    have := List.find?_eq_none.mp hf e he
+    simpa using this
+
+theorem hasNs_false {r : Repo} {ns : Name} (h : hasNs r ns = false) :
+    ∀ e ∈ r.nss, ieq e.1 (stripSlash ns) = false := by
+  simpa [hasNs] using h
+
+/-- what `rstep` does, case by case -/
+theorem rstep_inNs (r : Repo) (ns : Name) (op : Op) :
+    (findNs r ns = none ∧ rstep r (.inNs ns op) = (r, .err (missingNsError op))) ∨
+    (∃ s, findNs r ns = some s ∧ rstep r (.inNs ns op) = (setNs r ns (step s op).1, (step s op).2)) := by
+  simp only [rstep]
+  cases h : findNs r ns with
+  | none => exact Or.inl ⟨rfl, rfl⟩
+  | some s => exact Or.inr ⟨s, rfl, rfl⟩
+
+theorem setNs_keys (r : Repo) (ns : Name) (s : State) :
+    (setNs r ns s).nss.map (·.1) = r.nss.map (·.1) := by
+  simp only [setNs, List.map_map]
+  apply List.map_congr_left
+  intro e _
+  by_cases h : ieq e.1 (stripSlash ns) = true <;> simp [h]
+
+theorem pairwise_of_keys {l l' : List (Name × State)} (h : l'.map (·.1) = l.map (·.1))
+    (hp : List.Pairwise (fun a b => ieq a.1 b.1 = false) l) :
+    List.Pairwise (fun a b => ieq a.1 b.1 = false) l' := by
+  have h1 : List.Pairwise (fun a b => ieq a b = false) (l.map (·.1)) := by
+    rw [List.pairwise_map]; exact hp
+  rw [← h, List.pairwise_map] at h1
+  exact h1
+
+theorem nsUnique_rstep {r : Repo} (hu : NsUnique r) (op : ROp) : NsUnique (rstep r op).1 := by
+  cases op with
+  | inNs ns o =>
+    rcases rstep_inNs r ns o with ⟨_, h⟩ | ⟨s, _, h⟩
+    · rw [h]; exact hu
+    · rw [h]; exact pairwise_of_keys (setNs_keys r ns _) hu
+  | addNs ns =>
+    simp only [rstep]
+    cases h : hasNs r ns with
+    | true => simp; exact hu
+    | false =>
+      simp only [Bool.false_eq_true, if_false]
+      show List.Pairwise _ (r.nss ++ [(stripSlash ns, ({} : State))])
+      rw [List.pairwise_append]
+      refine ⟨hu, by simp, ?_⟩
+      intro a ha b hb
+      simp at hb; subst hb
+      exact hasNs_false h a ha
+  | removeNs ns =>
+    simp only [rstep]
+    cases hf : findNs r ns with
+    | none => exact hu
+    | some s =>
+      simp only
+      by_cases he : isEmptyState s = true
+      · simp only [he, if_true]
+        exact List.Pairwise.filter _ hu
+      · simp [he]; exact hu
+
+/-- every namespace of the repository holds a state that a single-namespace history reaches -/
+def AllReachable (r : Repo) : Prop := ∀ e ∈ r.nss, Reachable e.2
+
+theorem allReachable_rstep {r : Repo} (hr : AllReachable r) (op : ROp) : AllReachable (rstep r op).1 := by
+  cases op with
+  | inNs ns o =>
+    rcases rstep_inNs r ns o with ⟨_, h⟩ | ⟨s, hs, h⟩
+    · rw [h]; exact hr
+    · rw [h]
+      obtain ⟨k, hk, _⟩ := findNs_some hs
+      intro e he
+      simp only [setNs, List.mem_map] at he
+      obtain ⟨e0, he0, rfl⟩ := he
+      by_cases hm : ieq e0.1 (stripSlash ns) = true
+      · simp [hm]; exact reachable_step (hr _ hk) o
+      · simp [hm]; exact hr e0 he0
+  | addNs ns =>
+    simp only [rstep]
+    cases h : hasNs r ns with
+    | true => simp; exact hr
+    | false =>
+      simp only [Bool.false_eq_true, if_false]
+      intro e he
+      have : e ∈ r.nss ++ [(stripSlash ns, ({} : State))] := he
+      simp at this
+      rcases this with h1 | rfl
+      · exact hr e h1
+      · exact reachable_empty
+  | removeNs ns =>
+    simp only [rstep]
+    cases hf : findNs r ns with
+    | none => exact hr
+    | some s =>
+      simp only
+      by_cases he : isEmptyState s = true
+      · simp only [he, if_true]
+        intro e he'
+        exact hr e (List.mem_filter.mp he').1
+      · simp [he]; exact hr
+
+theorem rrun_inv {P : Repo → Prop} (hstep : ∀ r op, P r → P (rstep r op).1) :
+    ∀ (ops : List ROp) (r : Repo), P r → P (rrun r ops).1
+  | [], r, h => h
+  | op :: ops, r, h => by simp only [rrun]; exact rrun_inv hstep ops _ (hstep r op h)
+
+/-- the repository a faked connection starts with: one empty namespace -/
+def initRepo (d : Name) : Repo := { nss := [(stripSlash d, {})] }
+
+theorem initRepo_inv (d : Name) : NsUnique (initRepo d) ∧ AllReachable (initRepo d) := by
+  refine ⟨by simp [NsUnique, initRepo], ?_⟩
+  intro e he
+  simp [initRepo] at he
+  subst he; exact reachable_empty
+
+/-- in a repository with unique keys the namespace found for a spelling is THE entry with that key -/
+theorem findNs_unique {r : Repo} (hu : NsUnique r) {ns k : Name} {s s0 : State}
+    (hk : (k, s) ∈ r.nss) (hki : ieq k (stripSlash ns) = true) (hf : findNs r ns = some s0) : s0 = s := by
+  obtain ⟨k0, hk0, hk0i⟩ := findNs_some hf
+  have hkk : ieq k0 k = true := ieq_trans hk0i (ieq_symm hki)
+  by_cases heq : (k0, s0) = (k, s)
+  · injection heq with _ h2
+  · exfalso
+    rcases List.mem_iff_append.mp hk with ⟨l1, l2, hl⟩
+    have hu' : List.Pairwise (fun a b => ieq a.1 b.1 = false) (l1 ++ (k, s) :: l2) := by rw [← hl]; exact hu
+    rw [hl] at hk0
+    simp only [List.mem_append, List.mem_cons] at hk0
+    rw [List.pairwise_append] at hu'
+    obtain ⟨h1, h2, h3⟩ := hu'
+    rw [List.pairwise_cons] at h2
+    rcases hk0 with h | h | h
+    · have := h3 _ h (k, s) (by simp); simp [hkk] at this
+    · exact heq h
+    · have := h2.1 _ h; simp [ieq_symm hkk] at this
+
+/-- **independence of namespaces** (one step): after an operation addressed to `ns`, the namespace
+    stored under key `k` holds `step s op` if `ns` spells `k`, and is untouched otherwise -/
+theorem rstep_inNs_entry {r : Repo} (hu : NsUnique r) {k : Name} {s : State} (hk : (k, s) ∈ r.nss)
+    (ns : Name) (op : Op) :
+    (k, if ieq k (stripSlash ns) then (step s op).1 else s) ∈ (rstep r (.inNs ns op)).1.nss := by
+  rcases rstep_inNs r ns op with ⟨hn, h⟩ | ⟨s0, hs0, h⟩
+  · rw [h]
+    have := findNs_none hn (k, s) hk
+    simp at this
+    simp [this]; exact hk
+  · rw [h]
+    simp only [setNs, List.mem_map]
+    refine ⟨(k, s), hk, ?_⟩
+    by_cases hm : ieq k (stripSlash ns) = true
+    · have : s0 = s := findNs_unique hu hk hm hs0
+      simp [hm, this]
+    · simp [hm]
+
+/-- **independence of namespaces** (histories without namespace creation/removal): the final content
+    of a namespace is the single-namespace run of exactly the operations addressed to it -/
+theorem rrun_projection :
+    ∀ (ops : List ROp) (r : Repo), NsUnique r → (∀ o ∈ ops, ∃ ns op, o = .inNs ns op) →
+      ∀ k s, (k, s) ∈ r.nss → (k, (run s (projectOps k ops)).1) ∈ (rrun r ops).1.nss
+  | [], r, _, _, k, s, hk => by simpa [rrun, projectOps, run] using hk
+  | o :: ops, r, hu, hall, k, s, hk => by
+    obtain ⟨ns, op, rfl⟩ := hall o (by simp)
+    simp only [rrun, projectOps]
+    have hent := rstep_inNs_entry hu hk ns op
+    have hu' := nsUnique_rstep hu (.inNs ns op)
+    have hall' : ∀ o ∈ ops, ∃ ns op, o = ROp.inNs ns op := fun o ho => hall o (by simp [ho])
+    have := rrun_projection ops _ hu' hall' k _ hent
+    by_cases hm : ieq k (stripSlash ns) = true
+    · simpa [hm, run] using this
+    · simpa [hm] using this
+
+
+/-! ### the MOF compiler's connection -/
+
+theorem allE_ok_iff {α : Type} {f : α → Except PyExc Unit} {l : List α} :
+    allE f l = .ok () ↔ ∀ a ∈ l, f a = .ok () := by
+  induction l with
+  | nil => simp [allE]
+  | cons a l ih =>
+    simp only [allE, List.mem_cons, forall_eq_or_imp]
+    cases hf : f a with
+    | error e => simp [hf]
+    | ok u => simp [hf, ih]
+
+theorem depCheck_mof {cs : List Cls} {n : Name} {ty : Nat} {r : Option Name} {q : List Qual}
+    (h : depCheck cs n ty r q = .ok ()) : mofDepCheck cs n ty r q = .ok () := by
+  unfold depCheck at h
+  unfold mofDepCheck
+  by_cases h1 : (ty == tyReference) = true
+  · simp only [h1, if_true] at h ⊢
+    cases r with
+    | none => simp at h
+    | some r =>
+      simp only at h ⊢
+      by_cases h2 : ieq r n = true
+      · simp [h2]
+      · by_cases h3 : hasClass cs r = true
+        · simp [h3]
+        · simp [h2, h3] at h
+  · simp only [h1] at h ⊢
+    by_cases h4 : (ty == tyString) = true
+    · simp only [h4, if_true] at h ⊢
+      cases hf : findQual q nEmbeddedInstance with
+      | none => rfl
+      | some x =>
+        simp only [hf] at h ⊢
+        cases hv : x.val with
+        | null => rfl
+        | tok k => simp [hv] at h
+        | str v =>
+          simp only [hv] at h ⊢
+          by_cases h2 : ieq v n = true
+          · simp [h2]
+          · by_cases h3 : hasClass cs v = true
+            · simp [h3]
+            · simp [h2, h3] at h
+    · simp [h4]
+
+theorem validateDeps_mof {cs : List Cls} {c : Cls} (h : validateDeps cs c = .ok ()) : mofDeps cs c = .ok () := by
+  unfold validateDeps at h
+  unfold mofDeps
+  cases h1 : allE (fun (p : Elem) => depCheck cs c.name p.ty p.refcls p.quals) c.props with
+  | error e => simp [h1] at h
+  | ok u =>
+    simp only [h1] at h
+    have h1' := allE_ok_iff.mp h1
+    have h2' := allE_ok_iff.mp h
+    have a1 : allE (fun (p : Elem) => mofDepCheck cs c.name p.ty p.refcls p.quals) c.props = .ok () :=
+      allE_ok_iff.mpr (fun p hp => depCheck_mof (h1' p hp))
+    rw [a1]
+    apply allE_ok_iff.mpr
+    intro m hm
+    apply allE_ok_iff.mpr
+    intro p hp
+    exact depCheck_mof (allE_ok_iff.mp (h2' m hm) p hp)
+
+/-- a successful CreateClass passes the pre-checks of the MOF compiler's connection -/
+theorem createClass_mof {s s' : State} {c : Cls} (h : createClass s c = .ok s') :
+    mofCreateClass s c = .ok s' := by
+  obtain ⟨r, hr, _, _⟩ := createClass_ok h
+  obtain ⟨_, _, hp⟩ := resolveClass_ok hr
+  have hdeps : validateDeps s.classes c = .ok () := by
+    unfold createClass at h
+    split at h
+    · simp at h
+    · cases hd : validateDeps s.classes c with
+      | error e => simp [hd] at h
+      | ok u => rfl
+  unfold mofCreateClass
+  have hsup : (superSet c.super && !(hasClass s.classes (c.super.getD []))) = false := by
+    cases hs : c.super with
+    | none => simp [superSet]
+    | some sn =>
+      by_cases he : sn = []
+      · simp [superSet, he]
+      · simp [superSet, he, hp sn hs he]
+  simp only [hsup, Bool.false_eq_true, if_false, validateDeps_mof hdeps]
+  exact h
+
+
+/-! ### stored superclass names are normalised -/
+
+/-- no stored class has the empty string as superclass name -/
+def NormSupers (cs : List Cls) : Prop := ∀ c ∈ cs, c.super ≠ some []
+
+theorem normSuper_ne (o : Option Name) : normSuper o ≠ some [] := by
+  intro h
+  have := (normSuper_some h).2
+  exact this rfl
+
+theorem normSupers_step {s : State} (hn : NormSupers s.classes) (op : Op) : NormSupers (step s op).1.classes := by
+  have happ : ∀ {c r : Cls}, resolveClass s.decls s.classes c = .ok r → NormSupers (s.classes ++ [r]) := by
+    intro c r hr x hx
+    simp at hx
+    rcases hx with hx | rfl
+    · exact hn x hx
+    · rw [(resolveClass_ok hr).2.1]; exact normSuper_ne _
+  cases op with
+  | create c =>
+    simp only [step]
+    cases h : createClass s c with
+    | error e => exact hn
+    | ok s' => obtain ⟨r, hr, rfl, _⟩ := createClass_ok h; exact happ hr
+  | add c =>
+    simp only [step]
+    cases h : addClass s c with
+    | error e => exact hn
+    | ok s' => obtain ⟨r, hr, rfl, _⟩ := addClass_ok h; exact happ hr
+  | mofCreate c =>
+    simp only [step]
+    cases h : mofCreateClass s c with
+    | error e => exact hn
+    | ok s' => obtain ⟨r, hr, rfl, _⟩ := createClass_ok (mofCreateClass_ok h); exact happ hr
+  | modify c =>
+    simp only [step]
+    cases h : modifyClass s c with
+    | error e => exact hn
+    | ok s' =>
+      obtain ⟨orig, r, _, hr, rfl, _⟩ := modifyClass_ok h
+      intro x hx
+      simp only [replaceClass, List.mem_map] at hx
+      obtain ⟨y, hy, rfl⟩ := hx
+      by_cases hm : ieq y.name r.name = true
+      · simp [hm]; rw [(resolveClass_ok hr).2.1]; exact normSuper_ne _
+      · simp [hm]; exact hn y hy
+  | delete n =>
+    simp only [step]
+    cases h : deleteClass s n with
+    | error e => exact hn
+    | ok s' =>
+      obtain ⟨_, hc, _, _⟩ := deleteClass_ok h
+      show NormSupers s'.classes
+      rw [hc]; intro x hx; exact hn x (List.mem_filter.mp hx).1
+  | addDecl d =>
+    simp only [step]
+    cases h : addDecl s d with
+    | error e => exact hn
+    | ok s' => rw [addDecl_ok h]; exact hn
+  | get n f => simp only [step]; split <;> exact hn
+  | enumNames cn d => simp only [step]; split <;> exact hn
+  | enumClasses cn d f => simp only [step]; split <;> exact hn
+  | supers n => simp only [step]; split <;> exact hn
+  | addInst i => exact hn
+  | enumInsts n => simp only [step]; split <;> exact hn
+  | isSub k sup => simp only [step]; split <;> exact hn
+
+theorem normSupers_run : ∀ (ops : List Op) {s : State}, NormSupers s.classes → NormSupers (run s ops).1.classes
+  | [], s, h => h
+  | op :: ops, s, h => by simp only [run]; exact normSupers_run ops (normSupers_step h op)
+
+theorem reachable_norm {s : State} (h : Reachable s) : NormSupers s.classes := by
+  obtain ⟨decls, ops, rfl⟩ := h
+  exact normSupers_run ops (by intro c hc; simp at hc)
+
+/-! ### is_subclass -/
+
+theorem desc_congr_right {cs : List Cls} {x a b : Name} (hab : ieq a b = true) (h : Spec.Desc cs x a) :
+    Spec.Desc cs x b := by
+  induction h with
+  | child hc hch => exact .child hc (isChild_congr hab hch)
+  | trans _ hc hch ih => exact .trans (ih hab) hc hch
+
+/-- `is_subclass` walks exactly the chain `_get_superclass_names` collects -/
+theorem isSubclass_of_chain {cs : List Cls} (hn : NormSupers cs) (sup : Name) :
+    ∀ (f : Nat) (k : Name) (l : List Name), superChain f cs k = .ok l →
+      isSubclass f cs k sup =
+        if ieq k sup || l.any (fun s => ieq s sup) then .ok true
+        else if hasClass cs sup then .ok false else .error .keyError
+  | 0, k, l, h => by simp [superChain] at h
+  | f + 1, k, l, h => by
+    rw [superChain] at h
+    rw [isSubclass]
+    cases hx : findClass cs k with
+    | none => simp [hx] at h
+    | some c =>
+      simp only [hx] at h ⊢
+      by_cases hk : ieq k sup = true
+      · simp [hk]
+      · simp only [hk, Bool.false_or, if_false]
+        cases hs : c.super with
+        | none => simp [hs] at h; subst h; simp
+        | some s =>
+          simp only [hs] at h ⊢
+          have hne : s ≠ [] := by
+            intro h0; subst h0
+            exact hn c (findClass_some hx).1 hs
+          have he : s.isEmpty = false := by cases s <;> simp_all
+          simp only [he] at h
+          cases hr : superChain f cs s with
+          | error e => simp [hr] at h
+          | ok l' =>
+            simp [hr] at h; subst h
+            rw [isSubclass_of_chain hn sup f s l' hr]
+            simp [List.any_cons]
+
+/-- **`is_subclass` is exact on a forest with normalised superclass names**: for a stored class it
+    never loops, answers True iff the class is (named like) `sup` or descends from it, False iff not
+    and `sup` exists, and KeyError iff not and `sup` does not exist -/
+theorem isSubclass_exact {cs : List Cls} (hf : Forest cs) (hn : NormSupers cs) {x : Cls} (hx : x ∈ cs)
+    (sup : Name) :
+    ((ieq x.name sup = true ∨ Spec.Desc cs x.name sup) →
+        isSubclass (cs.length + 1) cs x.name sup = .ok true) ∧
+    (¬ (ieq x.name sup = true ∨ Spec.Desc cs x.name sup) → hasClass cs sup = true →
+        isSubclass (cs.length + 1) cs x.name sup = .ok false) ∧
+    (¬ (ieq x.name sup = true ∨ Spec.Desc cs x.name sup) → hasClass cs sup = false →
+        isSubclass (cs.length + 1) cs x.name sup = .error .keyError) := by
+  obtain ⟨l, hl⟩ := superChain_terminates hf x.name (hasClass_iff.mpr ⟨x, hx, ieq_refl _⟩)
+  have hl' := superChain_mono_fuel _ _ _ hl
+  rw [isSubclass_of_chain hn sup _ _ _ hl']
+  have hiff : (ieq x.name sup || l.any (fun s => ieq s sup)) = true ↔
+      (ieq x.name sup = true ∨ Spec.Desc cs x.name sup) := by
+    simp only [Bool.or_eq_true, List.any_eq_true]
+    constructor
+    · rintro (h | ⟨a, ha, hi⟩)
+      · exact Or.inl h
+      · obtain ⟨y, hy, hd⟩ := superChain_sound _ _ _ hl' a ha
+        have : y = x := by
+          rw [findClass_of_mem hf hx (ieq_refl _)] at hy; exact (Option.some.inj hy).symm
+        subst this
+        exact Or.inr (desc_congr_right hi hd)
+    · rintro (h | hd)
+      · exact Or.inl h
+      · obtain ⟨a, ha, hi⟩ := superChain_complete hf hd _ _ hl'
+        exact Or.inr ⟨a, ha, hi⟩
+  refine ⟨fun h => ?_, fun h hs => ?_, fun h hs => ?_⟩
+  · simp only [hiff.mpr h, if_true]
+  · have hc : ¬ (ieq x.name sup || l.any (fun s => ieq s sup)) = true := fun hc => h (hiff.mp hc)
+    simp [hc, hs]
+  · have hc : ¬ (ieq x.name sup || l.any (fun s => ieq s sup)) = true := fun hc => h (hiff.mp hc)
+    simp [hc, hs]
+
+/-! ### EnumerateClassNames without a class name -/
+
+theorem mem_children_none {cs : List Cls} {x : Name} :
+    x ∈ children cs none ↔ ∃ c ∈ cs, c.name = x ∧ c.super = none := by
+  simp only [children, List.mem_map, List.mem_filter]
+  constructor
+  · rintro ⟨c, ⟨hc, hs⟩, rfl⟩; exact ⟨c, hc, rfl, by simpa using hs⟩
+  · rintro ⟨c, hc, rfl, hs⟩; exact ⟨c, ⟨hc, by simp [hs]⟩, rfl⟩
+
+/-- every class of a forest with normalised superclass names is a root or descends from a root -/
+theorem forest_has_root {cs : List Cls} (hf : Forest cs) (hn : NormSupers cs) :
+    ∀ c ∈ cs, c.super = none ∨ ∃ r ∈ cs, r.super = none ∧ Spec.Desc cs c.name r.name := by
+  induction hf with
+  | nil => intro c hc; simp at hc
+  | @snoc cs d hf hfr hp ih =>
+    have hn' : NormSupers cs := fun c hc => hn c (by simp [hc])
+    have hsub : ∀ e ∈ cs, e ∈ cs ++ [d] := fun e he => by simp [he]
+    intro c hc
+    simp at hc
+    rcases hc with hc | rfl
+    · rcases ih hn' c hc with h | ⟨r, hr, hrs, hd⟩
+      · exact Or.inl h
+      · exact Or.inr ⟨r, hsub r hr, hrs, desc_mono hsub hd⟩
+    · cases hs : c.super with
+      | none => exact Or.inl rfl
+      | some s =>
+        have hne : s ≠ [] := by intro h0; subst h0; exact hn c (by simp) hs
+        obtain ⟨p, hpm, hpi⟩ := hasClass_iff.mp (hp s hs hne)
+        have hch : Spec.IsChild c p.name := ⟨s, hs, hne, ieq_symm hpi⟩
+        rcases ih hn' p hpm with h | ⟨r, hr, hrs, hd⟩
+        · exact Or.inr ⟨p, hsub p hpm, h, .child (by simp) hch⟩
+        · exact Or.inr ⟨r, hsub r hr, hrs, .trans (desc_mono hsub hd) (by simp) hch⟩
+
+/-- **EnumerateClassNames(DeepInheritance=True) without ClassName = all stored classes** -/
+theorem mem_subNames_all {cs : List Cls} (hf : Forest cs) (hn : NormSupers cs) {x : Name} :
+    x ∈ subNames cs none true ↔ ∃ c ∈ cs, c.name = x := by
+  simp only [subNames, if_true, subNamesDeep, List.mem_append, List.mem_flatten, List.mem_map]
+  constructor
+  · rintro (h | ⟨l, ⟨m, hm, rfl⟩, hx⟩)
+    · obtain ⟨c, hc, hcn, _⟩ := mem_children_none.mp h; exact ⟨c, hc, hcn⟩
+    · obtain ⟨q, hq, hqn⟩ := desc_is_stored (subNamesDeep_sound hx); exact ⟨q, hq, hqn⟩
+  · rintro ⟨c, hc, rfl⟩
+    rcases forest_has_root hf hn c hc with h | ⟨r, hr, hrs, hd⟩
+    · exact Or.inl (mem_children_none.mpr ⟨c, hc, rfl, h⟩)
+    · exact Or.inr ⟨_, ⟨r.name, mem_children_none.mpr ⟨r, hr, rfl, hrs⟩, rfl⟩, subNamesDeep_complete hf hd⟩
+
+
+/-! ### a subclass exposes every element of its ancestors: an invariant over histories -/
+
+/-- ModifyClass seen as "remove the (leaf) class, then add the newly resolved one" -/
+theorem modify_as_snoc {sel : Cls → List Elem} {decls : List QDecl} {cs : List Cls} {c r orig : Cls}
+    (hF : Forest cs) (hfind : findClass cs c.name = some orig)
+    (hr : resolveClass decls cs c = .ok r) (hleaf : children cs (some c.name) = [])
+    (hcompat : SuperCompat orig.super (normSuper c.super))
+    (hsel : ∀ sup, resolveParts decls c sup = .ok r →
+      resolveElems decls c.name (sel c) (sup.map sel) = .ok (sel r)) :
+    ∃ cs0 : List Cls, (∀ x ∈ cs0, x ∈ cs) ∧ Forest (cs0 ++ [r]) ∧
+      (∀ x, x ∈ cs0 ++ [r] ↔ x ∈ replaceClass cs r) ∧
+      ((r.super = none ∧ resolveElems decls r.name (sel c) none = .ok (sel r)) ∨
+       (∃ P, P ∈ cs0 ∧ Spec.IsChild r P.name ∧
+         resolveElems decls r.name (sel c) (some (sel P)) = .ok (sel r))) := by
+  obtain ⟨hn, hs, _⟩ := resolveClass_ok hr
+  obtain ⟨horig, hoi⟩ := findClass_some hfind
+  have nochild : ∀ d ∈ cs, ¬ Spec.IsChild d c.name := by
+    intro d hd hch
+    have : d.name ∈ children cs (some c.name) := mem_children.mpr ⟨d, hd, rfl, hch⟩
+    rw [hleaf] at this; simp at this
+  let keep : Cls → Bool := fun x => !(ieq x.name c.name)
+  have hup : UpClosed cs keep := by
+    intro d hd _ p hp hch
+    cases hpi : ieq p.name c.name with
+    | false => simp [keep, hpi]
+    | true => exact absurd (isChild_congr hpi hch) (nochild d hd)
+  have hF0 : Forest (cs.filter keep) := forest_filter hF keep hup
+  have hcase0 : (r.super = none ∧ resolveElems decls r.name (sel c) none = .ok (sel r)) ∨
+      (∃ P, P ∈ cs.filter keep ∧ Spec.IsChild r P.name ∧
+        resolveElems decls r.name (sel c) (some (sel P)) = .ok (sel r)) := by
+    rcases resolveClass_case hr hsel with h | ⟨P, hP, hch, hres⟩
+    · exact Or.inl h
+    · refine Or.inr ⟨P, List.mem_filter.mpr ⟨hP, ?_⟩, hch, hres⟩
+      cases hpi : ieq P.name c.name with
+      | false => simp [keep, hpi]
+      | true =>
+        exfalso
+        have hPo : P = orig := forest_unique hF P hP orig horig (ieq_trans hpi (ieq_symm hoi))
+        obtain ⟨s, hsr, hne, hi⟩ := hch
+        rw [hs] at hsr
+        obtain ⟨s', hs', hne', hi'⟩ := hcompat s hsr hne
+        have h1 : Spec.IsChild orig orig.name := ⟨s', hs', hne', by rw [← hPo]; exact ieq_trans hi' hi⟩
+        exact nochild orig horig (isChild_congr hoi h1)
+  have hF' : Forest (cs.filter keep ++ [r]) := by
+    refine .snoc hF0 ?_ ?_
+    · apply hasClass_false_iff.mpr
+      intro x hx
+      have := (List.mem_filter.mp hx).2
+      rw [hn]; simpa [keep] using this
+    · intro sn hsn _
+      rcases hcase0 with ⟨hnone, _⟩ | ⟨P, hP, ⟨s, hsr, _, hi⟩, _⟩
+      · rw [hnone] at hsn; cases hsn
+      · rw [hsn] at hsr; cases hsr
+        exact hasClass_iff.mpr ⟨P, hP, ieq_symm hi⟩
+  refine ⟨cs.filter keep, fun x hx => (List.mem_filter.mp hx).1, hF', ?_, hcase0⟩
+  intro x
+  rw [mem_replaceClass horig (by rw [hn]; exact hoi) x, List.mem_append, List.mem_filter]
+  simp [keep, hn]
+
+/-- every class exposes (under the same name, up to case) each element its direct superclass exposes -/
+def ChildExposes (sel : Cls → List Elem) (cs : List Cls) : Prop :=
+  ∀ c ∈ cs, ∀ P ∈ cs, Spec.IsChild c P.name → ∀ p ∈ sel P, hasElem (sel c) p.name = true
+
+theorem resolveElems_covers {decls : List QDecl} {n : Name} {own se r : List Elem}
+    (h : resolveElems decls n own (some se) = .ok r) : ∀ p ∈ se, hasElem r p.name = true := by
+  intro p hp
+  rw [hasElem_eq_any_names, resolveElems_names h]
+  simp only [Spec.exposedNames, List.any_append, Bool.or_eq_true, List.any_eq_true]
+  by_cases ho : (own.map (·.name)).any (fun o => ieq o p.name) = true
+  · exact Or.inl (List.any_eq_true.mp ho)
+  · refine Or.inr ⟨p.name, ?_, ieq_refl _⟩
+    rw [List.mem_filter]
+    exact ⟨List.mem_map.mpr ⟨p, hp, rfl⟩, by simpa using ho⟩
+
+theorem childExposes_subset {sel : Cls → List Elem} {A B : List Cls} (h : ∀ x ∈ B, x ∈ A)
+    (hA : ChildExposes sel A) : ChildExposes sel B :=
+  fun c hc P hP hch p hp => hA c (h c hc) P (h P hP) hch p hp
+
+theorem childExposes_snoc {sel : Cls → List Elem} {decls : List QDecl} {cs : List Cls} {r : Cls}
+    {own : List Elem} (hF' : Forest (cs ++ [r])) (hok : ChildExposes sel cs)
+    (hcase : (r.super = none ∧ resolveElems decls r.name own none = .ok (sel r)) ∨
+      (∃ P, P ∈ cs ∧ Spec.IsChild r P.name ∧ resolveElems decls r.name own (some (sel P)) = .ok (sel r))) :
+    ChildExposes sel (cs ++ [r]) := by
+  have hFcs : Forest cs := (forest_snoc_inv hF').1
+  have leaf := forest_last_leaf hF'
+  intro c hc P hP hch p hp
+  simp at hc hP
+  rcases hP with hP | rfl
+  · rcases hc with hc | rfl
+    · exact hok c hc P hP hch p hp
+    · rcases hcase with ⟨hnone, _⟩ | ⟨P0, hP0, hch0, hres⟩
+      · obtain ⟨s, hs, _, _⟩ := hch; rw [hnone] at hs; cases hs
+      · have : P = P0 := by
+          obtain ⟨s1, hs1, _, hi1⟩ := hch
+          obtain ⟨s2, hs2, _, hi2⟩ := hch0
+          rw [hs1] at hs2; cases hs2
+          exact forest_unique hFcs P hP P0 hP0 (ieq_trans (ieq_symm hi1) hi2)
+        subst this
+        exact resolveElems_covers hres p hp
+  · exact absurd hch (leaf c (by simp; exact hc))
+
+theorem childExposes_step {sel : Cls → List Elem}
+    (hsel : ∀ decls c sup r, resolveParts decls c sup = .ok r →
+      resolveElems decls c.name (sel c) (sup.map sel) = .ok (sel r))
+    {s : State} (hF : Forest s.classes) (hok : ChildExposes sel s.classes) (op : Op) :
+    ChildExposes sel (step s op).1.classes := by
+  have happ : ∀ {c r : Cls}, resolveClass s.decls s.classes c = .ok r → hasClass s.classes c.name = false →
+      ChildExposes sel (s.classes ++ [r]) := by
+    intro c r hr hfresh
+    obtain ⟨hn, hs, hp⟩ := resolveClass_ok hr
+    have hF' : Forest (s.classes ++ [r]) := by
+      refine .snoc hF (by rw [hn]; exact hfresh) ?_
+      intro sn hsn hne
+      rw [hs] at hsn
+      exact hp sn (normSuper_some hsn).1 hne
+    exact childExposes_snoc hF' hok (resolveClass_case hr (fun sup => hsel _ c sup r))
+  cases op with
+  | create c =>
+    simp only [step]
+    cases h : createClass s c with
+    | error e => exact hok
+    | ok s' => obtain ⟨r, hr, rfl, hfresh⟩ := createClass_ok h; exact happ hr hfresh
+  | add c =>
+    simp only [step]
+    cases h : addClass s c with
+    | error e => exact hok
+    | ok s' => obtain ⟨r, hr, rfl, hfresh⟩ := addClass_ok h; exact happ hr hfresh
+  | mofCreate c =>
+    simp only [step]
+    cases h : mofCreateClass s c with
+    | error e => exact hok
+    | ok s' => obtain ⟨r, hr, rfl, hfresh⟩ := createClass_ok (mofCreateClass_ok h); exact happ hr hfresh
+  | modify c =>
+    simp only [step]
+    cases h : modifyClass s c with
+    | error e => exact hok
+    | ok s' =>
+      obtain ⟨orig, r, hfind, hr, rfl, hleaf, _, hcompat⟩ := modifyClass_ok h
+      obtain ⟨cs0, hsub, hF', hmem, hcase⟩ :=
+        modify_as_snoc hF hfind hr hleaf hcompat (fun sup => hsel _ c sup r)
+      have h0 : ChildExposes sel cs0 := childExposes_subset hsub hok
+      have h1 := childExposes_snoc hF' h0 hcase
+      exact childExposes_subset (fun x hx => (hmem x).mpr hx) h1
+  | delete n =>
+    simp only [step]
+    cases h : deleteClass s n with
+    | error e => exact hok
+    | ok s' =>
+      obtain ⟨_, hc, _, _⟩ := deleteClass_ok h
+      show ChildExposes sel s'.classes
+      rw [hc]; exact childExposes_subset (fun x hx => (List.mem_filter.mp hx).1) hok
+  | addDecl d =>
+    simp only [step]
+    cases h : addDecl s d with
+    | error e => exact hok
+    | ok s' => rw [addDecl_ok h]; exact hok
+  | get n f => simp only [step]; split <;> exact hok
+  | enumNames cn d => simp only [step]; split <;> exact hok
+  | enumClasses cn d f => simp only [step]; split <;> exact hok
+  | supers n => simp only [step]; split <;> exact hok
+  | addInst i => exact hok
+  | enumInsts n => simp only [step]; split <;> exact hok
+  | isSub k sup => simp only [step]; split <;> exact hok
+
+theorem childExposes_run {sel : Cls → List Elem}
+    (hsel : ∀ decls c sup r, resolveParts decls c sup = .ok r →
+      resolveElems decls c.name (sel c) (sup.map sel) = .ok (sel r)) :
+    ∀ (ops : List Op) {s : State}, Forest s.classes → ChildExposes sel s.classes →
+      ChildExposes sel (run s ops).1.classes
+  | [], s, _, hok => hok
+  | op :: ops, s, hF, hok => by
+    simp only [run]
+    exact childExposes_run hsel ops (forest_step hF op) (childExposes_step hsel hF hok op)
+
+theorem reachable_childExposes {s : State} (h : Reachable s) :
+    ChildExposes (·.props) s.classes ∧ ChildExposes (·.meths) s.classes := by
+  obtain ⟨decls, ops, rfl⟩ := h
+  have h0 : ∀ sel, ChildExposes sel ([] : List Cls) := fun sel c hc => by simp at hc
+  exact ⟨childExposes_run hsel_props ops .nil (h0 _), childExposes_run hsel_meths ops .nil (h0 _)⟩
+
+/-- from children to all descendants -/
+theorem exposes_ancestors {sel : Cls → List Elem} {cs : List Cls} (hF : Forest cs)
+    (hok : ChildExposes sel cs) {x an : Name} (hd : Spec.Desc cs x an) :
+    ∀ c ∈ cs, c.name = x → ∀ a ∈ cs, a.name = an → ∀ p ∈ sel a, hasElem (sel c) p.name = true := by
+  induction hd with
+  | @child d an hdm hch =>
+    intro c hc hcn a ha han p hp
+    have : c = d := forest_unique hF c hc d hdm (by rw [hcn]; exact ieq_refl _)
+    subst this
+    exact hok c hc a ha (by rw [han]; exact hch) p hp
+  | @trans d m an hma hdm hch ih =>
+    intro c hc hcn a ha han p hp
+    have : c = d := forest_unique hF c hc d hdm (by rw [hcn]; exact ieq_refl _)
+    subst this
+    obtain ⟨q, hq, hqn⟩ := desc_is_stored hma
+    have h1 := ih q hq hqn a ha han p hp
+    simp only [hasElem, List.any_eq_true] at h1
+    obtain ⟨p', hp', hi⟩ := h1
+    have h2 := hok c hc q hq (by rw [hqn]; exact hch) p' hp'
+    rw [← hasElem_congr hi]; exact h2
+
+
+/-! ### every qualifier of an overriding element: own (resolved) or inherited copy -/
+
+/-- `x` stems from the own declaration `own`: same key, value and type as one of its qualifiers -/
+def FromOwn (own : List Qual) (x : Qual) : Prop :=
+  ∃ q ∈ own, ieq x.name q.name = true ∧ x.val = q.val ∧ x.ty = q.ty
+
+/-- `x` is the propagated copy of a ToSubclass qualifier of `src` that `own` does not declare -/
+def CopyOf (own src : List Qual) (x : Qual) : Prop :=
+  ∃ i ∈ src, truthy i.tosub = true ∧ hasQual own i.name = false ∧ x = { i with propagated := some true }
+
+theorem holds_hasQual {cur : List Qual} {q : Qual} (h : Holds cur q) : hasQual cur q.name = true := by
+  obtain ⟨q', hq', hi, _, _⟩ := h
+  simp only [hasQual, List.any_eq_true]; exact ⟨q', hq', hi⟩
+
+theorem mem_setQual {cur : List Qual} {x' y : Qual} (h : y ∈ setQual cur x') :
+    y = x' ∨ (y ∈ cur ∧ ieq y.name x'.name = false) := by
+  simp only [setQual, List.mem_map] at h
+  obtain ⟨z, hz, rfl⟩ := h
+  by_cases hm : ieq z.name x'.name = true
+  · simp [hm]
+  · have hm' : ieq z.name x'.name = false := by simpa using hm
+    simp [hm']; exact Or.inr hz
+
+/-- one iteration keeps "every entry is own or a copy of an already processed inherited qualifier" -/
+theorem inheritStep_form {decls : List QDecl} {own done cur cur' : List Qual} {inh : Qual}
+    (h : inheritStep decls cur inh = .ok cur')
+    (hdone : ∀ i ∈ done, ieq i.name inh.name = false)
+    (hown : ∀ q ∈ own, Holds cur q)
+    (hform : ∀ x ∈ cur, FromOwn own x ∨ CopyOf own done x) :
+    ∀ x ∈ cur', FromOwn own x ∨ CopyOf own (done ++ [inh]) x := by
+  have lift : ∀ x, FromOwn own x ∨ CopyOf own done x → FromOwn own x ∨ CopyOf own (done ++ [inh]) x := by
+    rintro x (h1 | ⟨i, hi, rest⟩)
+    · exact Or.inl h1
+    · exact Or.inr ⟨i, by simp [hi], rest⟩
+  unfold inheritStep at h
+  cases hf : findQual cur inh.name with
+  | none =>
+    have hq := hasQual_false_iff'.mp (findQual_none_iff.mp hf)
+    simp only [hf] at h
+    by_cases ht : truthy inh.tosub = true
+    · simp [ht] at h; subst h
+      intro x hx
+      simp at hx
+      rcases hx with hx | rfl
+      · exact lift x (hform x hx)
+      · refine Or.inr ⟨inh, by simp, ht, ?_, rfl⟩
+        -- own does not declare it: otherwise cur would hold an entry with that key
+        cases ho : hasQual own inh.name with
+        | false => rfl
+        | true =>
+          exfalso
+          simp only [hasQual, List.any_eq_true] at ho
+          obtain ⟨q, hq', hqi⟩ := ho
+          obtain ⟨q', hq'm, hq'i, _, _⟩ := hown q hq'
+          have := hq q' hq'm
+          simp [ieq_trans hq'i hqi] at this
+    · simp [ht] at h; subst h
+      exact fun x hx => lift x (hform x hx)
+  | some x0 =>
+    have hx0 := findQual_some_mem hf
+    have hx0i := (findQual_some_name hf).1
+    simp only [hf] at h
+    -- the found entry is an own one: copies carry keys of processed inherited qualifiers
+    have hx0own : FromOwn own x0 := by
+      rcases hform x0 hx0 with h1 | ⟨i, hi, _, _, rfl⟩
+      · exact h1
+      · have := hdone i hi; simp at hx0i; simp [hx0i] at this
+    have key : ∀ x', x'.name = x0.name → x'.val = x0.val → x'.ty = x0.ty →
+        .ok (setQual cur x') = (Except.ok cur' : Except PyExc (List Qual)) →
+        ∀ x ∈ cur', FromOwn own x ∨ CopyOf own (done ++ [inh]) x := by
+      intro x' hn hv hty hq'
+      injection hq' with hq'; subst hq'
+      intro y hy
+      rcases mem_setQual hy with rfl | ⟨hyc, _⟩
+      · obtain ⟨q, hq, a, b, c⟩ := hx0own
+        exact Or.inl ⟨q, hq, by rw [hn]; exact a, by rw [hv]; exact b, by rw [hty]; exact c⟩
+      · exact lift y (hform y hyc)
+    split at h
+    · split at h
+      · cases hi : initQual decls x0 with
+        | error e => simp [hi] at h
+        | ok x' =>
+          simp only [hi] at h
+          obtain ⟨a, b, c⟩ := initQual_val hi
+          exact key x' a b c h
+      · split at h
+        · simp at h
+        · cases hi : initQual decls x0 with
+          | error e => simp [hi] at h
+          | ok x' =>
+            simp only [hi] at h
+            obtain ⟨a, b, c⟩ := initQual_val hi
+            exact key { x' with propagated := some true } a b c h
+    · split at h
+      · cases hi : initQual decls x0 with
+        | error e => simp [hi] at h
+        | ok x' =>
+          simp only [hi] at h
+          obtain ⟨a, b, c⟩ := initQual_val hi
+          exact key x' a b c h
+      · simp at h
+
+theorem inheritFold_form {decls : List QDecl} {own : List Qual} :
+    ∀ (rest done cur r : List Qual), foldE (inheritStep decls) cur rest = .ok r →
+      List.Pairwise (fun a b => ieq a.name b.name = false) (done ++ rest) →
+      List.Pairwise (fun a b => ieq a.name b.name = false) cur → (∀ q ∈ own, Holds cur q) →
+      (∀ x ∈ cur, FromOwn own x ∨ CopyOf own done x) →
+      ∀ x ∈ r, FromOwn own x ∨ CopyOf own (done ++ rest) x
+  | [], done, cur, r, h, _, _, _, hform => by
+    simp [foldE] at h; subst h; simpa using hform
+  | inh :: rest, done, cur, r, h, hpw, hpc, hown, hform => by
+    simp only [foldE] at h
+    cases hs : inheritStep decls cur inh with
+    | error e => simp [hs] at h
+    | ok cur' =>
+      simp only [hs] at h
+      have hdone : ∀ i ∈ done, ieq i.name inh.name = false := by
+        intro i hi
+        rw [List.pairwise_append] at hpw
+        exact hpw.2.2 i hi inh (by simp)
+      obtain ⟨hpc', hown'⟩ := inheritStep_inv hs hpc hown
+      have hform' := inheritStep_form hs hdone hown hform
+      have hpw' : List.Pairwise (fun a b => ieq a.name b.name = false) ((done ++ [inh]) ++ rest) := by
+        simpa using hpw
+      have := inheritFold_form rest (done ++ [inh]) cur' r h hpw' hpc' hown' hform'
+      simpa using this
+
+/-- **every qualifier of an overriding element is accounted for**: it is one of the element's own
+    qualifiers (same key, value, type) or the copy, marked propagated, of a ToSubclass qualifier of
+    the overridden element that the element does not declare — nothing else (dictionaries with
+    pairwise different keys) -/
+theorem resolveQuals_form {decls : List QDecl} {own inh r : List Qual}
+    (hpo : List.Pairwise (fun a b => ieq a.name b.name = false) own)
+    (hpi : List.Pairwise (fun a b => ieq a.name b.name = false) inh)
+    (h : resolveQuals decls own inh true = .ok r) :
+    ∀ x ∈ r, FromOwn own x ∨ CopyOf own inh x := by
+  unfold resolveQuals at h
+  simp only [Bool.not_true, Bool.false_eq_true, if_false] at h
+  cases h1 : mapE (fun q => if hasQual inh q.name then .ok q else initQual decls q) own with
+  | error e => simp [h1] at h
+  | ok q1 =>
+    simp only [h1] at h
+    have hn : q1.map lname = own.map lname := by
+      apply mapE_ok_map lname lname _ h1
+      intro a b hab
+      by_cases hq : hasQual inh a.name = true
+      · simp [hq] at hab; subst hab; rfl
+      · simp [hq] at hab; simp [lname, (initQual_name hab).1]
+    have hpw1 := pairwise_of_lnames own q1 hn.symm hpo
+    have hown1 : ∀ q ∈ own, Holds q1 q := by
+      intro q hq
+      obtain ⟨b, hb, hfb⟩ := mapE_ok_fwd h1 q hq
+      by_cases hq' : hasQual inh q.name = true
+      · simp [hq'] at hfb; subst hfb; exact ⟨q, hb, ieq_refl _, rfl, rfl⟩
+      · simp [hq'] at hfb
+        obtain ⟨a1, a2, a3⟩ := initQual_val hfb
+        exact ⟨b, hb, by rw [a1]; exact ieq_refl _, a2, a3⟩
+    have hform1 : ∀ x ∈ q1, FromOwn own x ∨ CopyOf own [] x := by
+      intro x hx
+      obtain ⟨a, ha, hfa⟩ := mapE_ok_mem h1 x hx
+      refine Or.inl ⟨a, ha, ?_⟩
+      by_cases hq' : hasQual inh a.name = true
+      · simp [hq'] at hfa; subst hfa; exact ⟨ieq_refl _, rfl, rfl⟩
+      · simp [hq'] at hfa
+        obtain ⟨a1, a2, a3⟩ := initQual_val hfa
+        exact ⟨by rw [a1]; exact ieq_refl _, a2, a3⟩
+    have := inheritFold_form inh [] q1 r h (by simpa using hpi) hpw1 hown1 hform1
+    simpa using this
+
+
+/-! ### the enumerations list every class once -/
+
+theorem forest_acyclic {cs : List Cls} (hf : Forest cs) : ∀ c ∈ cs, ¬ Spec.Desc cs c.name c.name := by
+  induction hf with
+  | nil => intro c hc; simp at hc
+  | @snoc cs d hf hfr hp ih =>
+    intro c hc hd
+    have hF : Forest (cs ++ [d]) := .snoc hf hfr hp
+    rcases desc_snoc hF hd with hold | ⟨hname, hch⟩
+    · obtain ⟨q, hq, hqn⟩ := desc_is_stored hold
+      simp at hc
+      rcases hc with hc | rfl
+      · exact ih c hc hold
+      · have := hasClass_false_iff.mp hfr q hq
+        simp [hqn, ieq_refl] at this
+    · have leaf := forest_last_leaf hF
+      rcases hch with hch | ⟨m, hm, hch⟩
+      · exact leaf d (by simp) (by rw [← hname]; exact hch)
+      · have : ∀ {x a}, Spec.Desc cs x a → a = d.name → False := by
+          intro x a hxa
+          induction hxa with
+          | child hmem hic => intro ha; subst ha; exact leaf _ (by simp [hmem]) hic
+          | trans _ _ _ ih2 => exact ih2
+        exact this hm hname
+
+/-- the filter predicate of `_get_subclass_names` -/
+def isChildB (c : Cls) (a : Name) : Bool :=
+  match c.super with
+  | some s => !s.isEmpty && ieq s a
+  | none => false
+
+theorem isChildB_iff {c : Cls} {a : Name} : isChildB c a = true ↔ Spec.IsChild c a := by
+  unfold isChildB Spec.IsChild
+  cases hs : c.super with
+  | none => simp
+  | some s =>
+    simp only [Bool.and_eq_true, Bool.not_eq_true', Option.some.injEq]
+    constructor
+    · rintro ⟨h1, h2⟩; exact ⟨s, rfl, by intro h; simp [h] at h1, h2⟩
+    · rintro ⟨s', rfl, h1, h2⟩; exact ⟨by cases s <;> simp_all, h2⟩
+
+theorem children_snoc (cs : List Cls) (c : Cls) (a : Name) :
+    children (cs ++ [c]) (some a) = children cs (some a) ++ (if isChildB c a then [c.name] else []) := by
+  simp only [children, List.filter_append, List.map_append]
+  congr 1
+  unfold isChildB
+  cases hs : c.super with
+  | none => simp [hs]
+  | some s =>
+    by_cases h : (!s.isEmpty && ieq s a) = true
+    · simp [hs, h]
+    · simp [hs, h]
+
+theorem sum_map_congr {α : Type} {l : List α} {f g : α → Nat} (h : ∀ m ∈ l, f m = g m) :
+    (l.map f).sum = (l.map g).sum := by
+  rw [List.map_congr_left h]
+
+theorem sum_map_le {α : Type} {l : List α} {f g : α → Nat} (h : ∀ m ∈ l, f m ≤ g m) :
+    (l.map f).sum ≤ (l.map g).sum := by
+  induction l with
+  | nil => simp
+  | cons a l ih =>
+    simp only [List.map_cons, List.sum_cons]
+    have h1 := h a (by simp)
+    have h2 := ih (fun m hm => h m (by simp [hm]))
+    omega
+
+theorem sum_map_add {α : Type} (l : List α) (f g : α → Nat) :
+    (l.map (fun m => f m + g m)).sum = (l.map f).sum + (l.map g).sum := by
+  induction l with
+  | nil => simp
+  | cons a l ih => simp only [List.map_cons, List.sum_cons, ih]; omega
+
+theorem filter_length_sum {α : Type} (l : List α) (p : α → Bool) :
+    (l.filter p).length = (l.map (fun m => if p m then 1 else 0)).sum := by
+  induction l with
+  | nil => simp
+  | cons a l ih =>
+    by_cases h : p a = true
+    · simp [List.filter_cons, h, ih]; omega
+    · simp [List.filter_cons, h, ih]
+
+theorem filter_flatten_length {α : Type} (L : List (List α)) (p : α → Bool) :
+    (L.flatten.filter p).length = (L.map (fun l => (l.filter p).length)).sum := by
+  induction L with
+  | nil => simp
+  | cons l L ih => simp only [List.flatten_cons, List.filter_append, List.length_append, ih, List.map_cons, List.sum_cons]
+
+theorem filter_length_le_one {α : Type} {l : List α} {p : α → Bool} (hn : l.Nodup)
+    (heq : ∀ x ∈ l, ∀ y ∈ l, p x = true → p y = true → x = y) : (l.filter p).length ≤ 1 := by
+  have hnf : (l.filter p).Nodup := List.Nodup.sublist List.filter_sublist hn
+  match hfl : l.filter p with
+  | [] => simp
+  | [x] => simp
+  | x :: y :: rest =>
+    exfalso
+    have hx : x ∈ l.filter p := by rw [hfl]; simp
+    have hy : y ∈ l.filter p := by rw [hfl]; simp
+    obtain ⟨hx1, hx2⟩ := List.mem_filter.mp hx
+    obtain ⟨hy1, hy2⟩ := List.mem_filter.mp hy
+    have := heq x hx1 y hy1 hx2 hy2
+    rw [hfl, this] at hnf
+    simp at hnf
+
+/-- the deep enumeration unfolded (one level) in terms of counts -/
+theorem count_subNamesDeep_succ (cs : List Cls) (f : Nat) (a x : Name) :
+    List.count x (subNamesDeep (f + 1) cs (some a)) =
+      List.count x (children cs (some a)) +
+        ((children cs (some a)).map (fun m => List.count x (subNamesDeep f cs (some m)))).sum := by
+  simp only [subNamesDeep, List.count_append, List.count_flatten, List.map_map]
+  rfl
+
+section snoc
+variable {cs : List Cls} {c : Cls} (hF : Forest (cs ++ [c]))
+include hF
+
+theorem name_fresh : ∀ q ∈ cs, q.name ≠ c.name := by
+  intro q hq h
+  have := hasClass_false_iff.mp (forest_snoc_inv hF).2.1 q hq
+  rw [h] at this; simp [ieq_refl] at this
+
+theorem subNamesDeep_last (f : Nat) : subNamesDeep f (cs ++ [c]) (some c.name) = [] := by
+  cases f with
+  | zero => rfl
+  | succ f =>
+    have hch : children (cs ++ [c]) (some c.name) = [] := by
+      apply List.eq_nil_iff_forall_not_mem.mpr
+      intro x hx
+      obtain ⟨d, hd, _, hdc⟩ := mem_children.mp hx
+      exact forest_last_leaf hF d hd hdc
+    simp [subNamesDeep, hch]
+
+theorem count_new_children (a : Name) : List.count c.name (children cs (some a)) = 0 := by
+  apply List.count_eq_zero.mpr
+  intro h
+  obtain ⟨q, hq, hqn, _⟩ := mem_children.mp h
+  exact name_fresh hF q hq hqn
+
+/-- names other than the new one are counted as before -/
+theorem count_old (x : Name) (hx : x ≠ c.name) :
+    ∀ (f : Nat) (a : Name), List.count x (subNamesDeep f (cs ++ [c]) (some a)) =
+      List.count x (subNamesDeep f cs (some a))
+  | 0, a => rfl
+  | f + 1, a => by
+    rw [count_subNamesDeep_succ, count_subNamesDeep_succ, children_snoc]
+    have hE : List.count x (if isChildB c a then [c.name] else []) = 0 := by
+      split
+      · simp [List.count_cons, hx]; intro h; exact hx h.symm
+      · simp
+    have hS : ((if isChildB c a then [c.name] else []).map
+        (fun m => List.count x (subNamesDeep f (cs ++ [c]) (some m)))).sum = 0 := by
+      split
+      · simp [subNamesDeep_last hF f]
+      · simp
+    rw [List.count_append, hE, List.map_append, List.sum_append, hS]
+    simp only [Nat.add_zero]
+    congr 1
+    exact sum_map_congr (fun m _ => count_old x hx f m)
+
+/-- the new name is counted at most once per enumerated superclass candidate -/
+theorem count_new :
+    ∀ (f : Nat) (a : Name), List.count c.name (subNamesDeep f (cs ++ [c]) (some a)) ≤
+      (if isChildB c a then 1 else 0) + ((subNamesDeep f cs (some a)).filter (isChildB c)).length
+  | 0, a => by simp [subNamesDeep]
+  | f + 1, a => by
+    rw [count_subNamesDeep_succ, children_snoc, List.count_append, count_new_children hF a,
+      List.map_append, List.sum_append]
+    have hS : ((if isChildB c a then [c.name] else []).map
+        (fun m => List.count c.name (subNamesDeep f (cs ++ [c]) (some m)))).sum = 0 := by
+      split
+      · simp [subNamesDeep_last hF f]
+      · simp
+    have hE : List.count c.name (if isChildB c a then [c.name] else []) = (if isChildB c a then 1 else 0) := by
+      split <;> simp
+    rw [hS, hE]
+    have hK : ((subNamesDeep (f + 1) cs (some a)).filter (isChildB c)).length =
+        ((children cs (some a)).map (fun m => (if isChildB c m then 1 else 0) +
+          ((subNamesDeep f cs (some m)).filter (isChildB c)).length)).sum := by
+      rw [sum_map_add]
+      simp only [subNamesDeep, List.filter_append, List.length_append, filter_flatten_length,
+        List.map_map, filter_length_sum (children cs (some a))]
+      rfl
+    have hle := sum_map_le (l := children cs (some a))
+      (f := fun m => List.count c.name (subNamesDeep f (cs ++ [c]) (some m)))
+      (g := fun m => (if isChildB c m then 1 else 0) + ((subNamesDeep f cs (some m)).filter (isChildB c)).length)
+      (fun m _ => count_new f m)
+    omega
+
+end snoc
+
+/-- **the deep enumeration of a forest never lists a class twice** -/
+theorem subNamesDeep_nodup {cs : List Cls} (hf : Forest cs) :
+    ∀ (f : Nat) (a : Name), (subNamesDeep f cs (some a)).Nodup := by
+  induction hf with
+  | nil => intro f a; cases f <;> simp [subNamesDeep, children]
+  | @snoc cs c hf hfr hp ih =>
+    have hF : Forest (cs ++ [c]) := .snoc hf hfr hp
+    intro f a
+    rw [List.nodup_iff_count]
+    intro x
+    by_cases hx : x = c.name
+    · subst hx
+      have h1 := count_new hF f a
+      -- at most one enumerated class can be c's superclass, and none if `a` itself is
+      have hstored : ∀ m ∈ subNamesDeep f cs (some a), isChildB c m = true →
+          ∃ q ∈ cs, q.name = m ∧ Spec.Desc cs m a := by
+        intro m hm _
+        have hd := subNamesDeep_sound hm
+        obtain ⟨q, hq, hqn⟩ := desc_is_stored hd
+        exact ⟨q, hq, hqn, hd⟩
+      have hone : ((subNamesDeep f cs (some a)).filter (isChildB c)).length ≤ 1 := by
+        apply filter_length_le_one (ih f a)
+        intro m1 hm1 m2 hm2 h1 h2
+        obtain ⟨q1, hq1, rfl, _⟩ := hstored m1 hm1 h1
+        obtain ⟨q2, hq2, rfl, _⟩ := hstored m2 hm2 h2
+        obtain ⟨s1, hs1, _, hi1⟩ := isChildB_iff.mp h1
+        obtain ⟨s2, hs2, _, hi2⟩ := isChildB_iff.mp h2
+        rw [hs1] at hs2; cases hs2
+        rw [forest_unique hf q1 hq1 q2 hq2 (ieq_trans (ieq_symm hi1) hi2)]
+      by_cases hca : isChildB c a = true
+      · have hzero : ((subNamesDeep f cs (some a)).filter (isChildB c)).length = 0 := by
+          rw [List.length_eq_zero_iff, List.filter_eq_nil_iff]
+          intro m hm hcm
+          obtain ⟨q, hq, rfl, hd⟩ := hstored m hm hcm
+          obtain ⟨s1, hs1, _, hi1⟩ := isChildB_iff.mp hca
+          obtain ⟨s2, hs2, _, hi2⟩ := isChildB_iff.mp hcm
+          rw [hs1] at hs2; cases hs2
+          exact forest_acyclic hf q hq (desc_congr_right (ieq_trans (ieq_symm hi1) hi2) hd)
+        simp [hca, hzero] at h1; exact h1
+      · simp [hca] at h1; omega
+    · rw [count_old hF x hx f a]
+      exact List.nodup_iff_count.mp (ih f a) x
+
+
+/-! ### the stores hold dictionaries: keys pairwise different (up to case) -/
+
+def KeysQ (qs : List Qual) : Prop := List.Pairwise (fun a b => ieq a.name b.name = false) qs
+
+def KeysE (es : List Elem) : Prop :=
+  List.Pairwise (fun a b => ieq a.name b.name = false) es ∧ ∀ e ∈ es, KeysQ e.quals
+
+/-- a class whose qualifier, property and method dictionaries (and the qualifier dictionaries of its
+    properties and methods) have pairwise different keys — what a CIMClass object is -/
+def ClsKeys (c : Cls) : Prop := KeysQ c.quals ∧ KeysE c.props ∧ KeysE c.meths
+
+/-- the qualifiers of one resolved own element -/
+theorem resolveElem_quals {decls : List QDecl} {n : Name} {supE : List Elem} {e e' : Elem}
+    (h : resolveElem decls n supE e = .ok e') :
+    resolveQuals decls e.quals [] false = .ok e'.quals ∨
+    ∃ s ∈ supE, resolveQuals decls e.quals s.quals true = .ok e'.quals := by
+  unfold resolveElem at h
+  by_cases h1 : hasElem supE e.name = true
+  · simp only [h1] at h
+    by_cases h2 : hasQual e.quals nOverride = true
+    · simp only [h2] at h
+      simp at h
+      split at h
+      · simp at h
+      · cases hk : keyOfVal (overrideVal e.quals) with
+        | error err => simp [hk] at h
+        | ok oname =>
+          simp only [hk] at h
+          cases hfs : findElem supE oname with
+          | none => simp [hfs] at h
+          | some s =>
+            simp only [hfs] at h
+            split at h
+            · simp at h
+            · cases hs : setNewElem decls n e (some s) with
+              | error err => simp [hs] at h
+              | ok e1 =>
+                simp only [hs] at h
+                obtain ⟨_, _, _, _, _, _, hq⟩ := setNewElem_ok hs
+                have hsm := (findElem_some hfs).1
+                split at h
+                · cases hps : resolveParams e1.params ((findElem supE e.name).map (·.params) |>.getD []) with
+                  | error err => simp [hps] at h
+                  | ok ps =>
+                    simp [hps] at h; subst h
+                    exact Or.inr ⟨s, hsm, hq⟩
+                · simp at h; subst h
+                  exact Or.inr ⟨s, hsm, hq⟩
+    · simp [h2] at h
+  · simp only [h1] at h
+    simp at h
+    obtain ⟨_, _, _, _, _, _, hq⟩ := setNewElem_ok h
+    exact Or.inl hq
+
+theorem keysQ_init {decls : List QDecl} {own r : List Qual} (hk : KeysQ own)
+    (h : resolveQuals decls own [] false = .ok r) : KeysQ r := by
+  simp only [resolveQuals] at h
+  have hn : r.map lname = own.map lname :=
+    mapE_ok_map lname lname (fun a b hab => by simp [lname, (initQual_name hab).1]) h
+  exact pairwise_of_lnames own r hn.symm hk
+
+theorem pairwise_lname_iff (l : List Qual) :
+    List.Pairwise (fun a b => ieq a.name b.name = false) l ↔ (l.map lname).Nodup := by
+  rw [List.Nodup, List.pairwise_map]
+  apply List.Pairwise.iff
+  intro a b
+  simp [ieq, lname]
+
+theorem keysQ_override {decls : List QDecl} {own inh r : List Qual} (hko : KeysQ own) (hki : KeysQ inh)
+    (h : resolveQuals decls own inh true = .ok r) : KeysQ r := by
+  have hl := resolveQuals_override_lnames hki h
+  unfold KeysQ at *
+  rw [pairwise_lname_iff] at hko hki ⊢
+  rw [hl, List.nodup_append]
+  refine ⟨hko, ?_, ?_⟩
+  · unfold Spec.inheritedQuals
+    exact List.Nodup.sublist (List.Sublist.map _ List.filter_sublist) hki
+  · intro a ha b hb hab
+    subst hab
+    obtain ⟨q, hq, rfl⟩ := List.mem_map.mp hb
+    unfold Spec.inheritedQuals at hq
+    obtain ⟨_, hq2⟩ := List.mem_filter.mp hq
+    simp only [Bool.and_eq_true, Bool.not_eq_true'] at hq2
+    rw [hasQual_eq_lnames] at hq2
+    have : (own.map lname).contains (lower q.name) = true := by
+      simp only [List.contains_eq_any_beq, List.any_eq_true]
+      exact ⟨lname q, ha, by simp [lname]⟩
+    rw [this] at hq2; simp at hq2
+
+theorem keysQ_copy {qs : List Qual} (h : KeysQ qs) : KeysQ (copyQuals qs) := by
+  unfold KeysQ copyQuals at *
+  rw [List.pairwise_map]
+  exact List.Pairwise.sublist List.filter_sublist h
+
+theorem keysE_resolve {decls : List QDecl} {n : Name} {own r : List Elem} {sup : Option (List Elem)}
+    (hko : KeysE own) (hks : ∀ se, sup = some se → KeysE se)
+    (h : resolveElems decls n own sup = .ok r) : KeysE r := by
+  unfold resolveElems at h
+  cases sup with
+  | none =>
+    simp only at h
+    have hn : r.map (·.name) = own.map (·.name) :=
+      mapE_ok_map (·.name) (·.name) (fun a b hab => (setNewElem_ok hab).1) h
+    refine ⟨?_, ?_⟩
+    · have h1 : List.Pairwise (fun a b => ieq a b = false) (own.map (·.name)) := by
+        rw [List.pairwise_map]; exact hko.1
+      rw [← hn, List.pairwise_map] at h1; exact h1
+    · intro e he
+      obtain ⟨d, hd, hde⟩ := mapE_ok_mem h e he
+      obtain ⟨_, _, _, _, _, _, hq⟩ := setNewElem_ok hde
+      exact keysQ_init (hko.2 d hd) hq
+  | some se =>
+    have hkse := hks se rfl
+    simp only at h
+    cases hm : mapE (resolveElem decls n se) own with
+    | error e => simp [hm] at h
+    | ok es =>
+      simp [hm] at h; subst h
+      have hn : es.map (·.name) = own.map (·.name) :=
+        mapE_ok_map (·.name) (·.name) (fun a b hab => (resolveElem_ok hab).1) hm
+      refine ⟨?_, ?_⟩
+      · rw [List.pairwise_append]
+        refine ⟨?_, ?_, ?_⟩
+        · have h1 : List.Pairwise (fun a b => ieq a b = false) (own.map (·.name)) := by
+            rw [List.pairwise_map]; exact hko.1
+          rw [← hn, List.pairwise_map] at h1; exact h1
+        · rw [List.pairwise_map]
+          exact List.Pairwise.sublist List.filter_sublist (by simpa [copyElem] using hkse.1)
+        · intro a ha b hb
+          obtain ⟨p, hp, rfl⟩ := List.mem_map.mp hb
+          obtain ⟨_, hp2⟩ := List.mem_filter.mp hp
+          have hnot : hasElem own p.name = false := by simpa using hp2
+          -- a's name is the name of an own element
+          have : a.name ∈ own.map (·.name) := by rw [← hn]; exact List.mem_map.mpr ⟨a, ha, rfl⟩
+          obtain ⟨d, hd, hdn⟩ := List.mem_map.mp this
+          have hdp : ieq d.name p.name = false := by
+            simp only [hasElem, List.any_eq_false] at hnot
+            simpa using hnot d hd
+          simp only [copyElem]
+          rw [← hdn]; exact hdp
+      · intro e he
+        rcases List.mem_append.mp he with he | he
+        · obtain ⟨d, hd, hde⟩ := mapE_ok_mem hm e he
+          rcases resolveElem_quals hde with hq | ⟨s, hs, hq⟩
+          · exact keysQ_init (hko.2 d hd) hq
+          · exact keysQ_override (hko.2 d hd) (hkse.2 s hs) hq
+        · obtain ⟨p, hp, rfl⟩ := List.mem_map.mp he
+          exact keysQ_copy (hkse.2 p (List.mem_filter.mp hp).1)
+
+theorem clsKeys_resolve {decls : List QDecl} {cs : List Cls} {c r : Cls}
+    (hstore : ∀ x ∈ cs, ClsKeys x) (hc : ClsKeys c) (h : resolveClass decls cs c = .ok r) : ClsKeys r := by
+  obtain ⟨sup, hfs, hparts⟩ := resolveClass_parts h
+  obtain ⟨cq, ps, ms, hq, hp, hm, rfl⟩ := resolveParts_ok hparts
+  have hsup : ∀ P, sup = some P → ClsKeys P := by
+    intro P hP
+    rcases findSuper_cases hfs with ⟨h0, _⟩ | ⟨P', s, h1, hP', _⟩
+    · rw [h0] at hP; cases hP
+    · rw [h1] at hP; injection hP with hP; subst hP; exact hstore _ hP'
+  refine ⟨keysQ_init hc.1 hq, ?_, ?_⟩
+  · apply keysE_resolve hc.2.1 _ hp
+    intro se hse
+    cases sup with
+    | none => simp at hse
+    | some P => simp at hse; subst hse; exact (hsup P rfl).2.1
+  · apply keysE_resolve hc.2.2 _ hm
+    intro se hse
+    cases sup with
+    | none => simp at hse
+    | some P => simp at hse; subst hse; exact (hsup P rfl).2.2
+
+/-- every stored class is a proper dictionary structure -/
+def StoreKeys (cs : List Cls) : Prop := ∀ x ∈ cs, ClsKeys x
+
+/-- the class objects an operation submits are proper dictionary structures (they are CIMClass
+    objects: NocaseDicts) -/
+def OpKeys : Op → Prop
+  | .create c => ClsKeys c
+  | .add c => ClsKeys c
+  | .modify c => ClsKeys c
+  | .mofCreate c => ClsKeys c
+  | _ => True
+
+theorem storeKeys_step {s : State} (hk : StoreKeys s.classes) (op : Op) (hop : OpKeys op) :
+    StoreKeys (step s op).1.classes := by
+  have happ : ∀ {c r : Cls}, ClsKeys c → resolveClass s.decls s.classes c = .ok r →
+      StoreKeys (s.classes ++ [r]) := by
+    intro c r hc hr x hx
+    simp at hx
+    rcases hx with hx | rfl
+    · exact hk x hx
+    · exact clsKeys_resolve hk hc hr
+  cases op with
+  | create c =>
+    simp only [step]
+    cases h : createClass s c with
+    | error e => exact hk
+    | ok s' => obtain ⟨r, hr, rfl, _⟩ := createClass_ok h; exact happ hop hr
+  | add c =>
+    simp only [step]
+    cases h : addClass s c with
+    | error e => exact hk
+    | ok s' => obtain ⟨r, hr, rfl, _⟩ := addClass_ok h; exact happ hop hr
+  | mofCreate c =>
+    simp only [step]
+    cases h : mofCreateClass s c with
+    | error e => exact hk
+    | ok s' => obtain ⟨r, hr, rfl, _⟩ := createClass_ok (mofCreateClass_ok h); exact happ hop hr
+  | modify c =>
+    simp only [step]
+    cases h : modifyClass s c with
+    | error e => exact hk
+    | ok s' =>
+      obtain ⟨orig, r, _, hr, rfl, _⟩ := modifyClass_ok h
+      intro x hx
+      simp only [replaceClass, List.mem_map] at hx
+      obtain ⟨y, hy, rfl⟩ := hx
+      by_cases hm : ieq y.name r.name = true
+      · simp [hm]; exact clsKeys_resolve hk hop hr
+      · simp [hm]; exact hk y hy
+  | delete n =>
+    simp only [step]
+    cases h : deleteClass s n with
+    | error e => exact hk
+    | ok s' =>
+      obtain ⟨_, hc, _, _⟩ := deleteClass_ok h
+      show StoreKeys s'.classes
+      rw [hc]; intro x hx; exact hk x (List.mem_filter.mp hx).1
+  | addDecl d =>
+    simp only [step]
+    cases h : addDecl s d with
+    | error e => exact hk
+    | ok s' => rw [addDecl_ok h]; exact hk
+  | get n f => simp only [step]; split <;> exact hk
+  | enumNames cn d => simp only [step]; split <;> exact hk
+  | enumClasses cn d f => simp only [step]; split <;> exact hk
+  | supers n => simp only [step]; split <;> exact hk
+  | addInst i => exact hk
+  | enumInsts n => simp only [step]; split <;> exact hk
+  | isSub k sup => simp only [step]; split <;> exact hk
+
+theorem storeKeys_run : ∀ (ops : List Op) {s : State}, StoreKeys s.classes → (∀ op ∈ ops, OpKeys op) →
+    StoreKeys (run s ops).1.classes
+  | [], s, hk, _ => hk
+  | op :: ops, s, hk, hall => by
+    simp only [run]
+    exact storeKeys_run ops (storeKeys_step hk op (hall op (by simp))) (fun o ho => hall o (by simp [ho]))
+
 end Proofs.Resolve
